@@ -68,6 +68,15 @@ pub mod verif_hooks {
     }
 
     impl CryptoRng for SimOsRng {}
+
+    /// `SigningError` cannot be named or constructed outside this crate; a simulated signer
+    /// (fault-injecting wrapper, toy scheme) needs both.
+    pub use super::SigningError;
+
+    /// Builds the error an `EnrKey::sign_v4` implementation returns on failure.
+    pub fn signing_error(msg: &str) -> SigningError {
+        SigningError::new(msg)
+    }
 }
 
 #[cfg(all(feature = "ed25519", feature = "k256"))]
